@@ -239,6 +239,7 @@ func memConnOf(obj any) *memConn {
 }
 
 var yieldNames = map[string]string{
+	"srv.handleConn.start":      "connStart",
 	"srv.beforeSend":            "beforeSend",
 	"srv.send.loaded":           "sendLoaded",
 	"srv.write.beforeErr":       "writeBeforeErr",
@@ -1203,9 +1204,9 @@ func selfTest() error {
 	if m != 1 || r != 1 || w != 1 || a != 1 {
 		return fmt.Errorf("goroutine profile of one live connection: handleConn=%d readloop=%d writeloop=%d Serve=%d (expected 1 each): the function names the leak oracles look for no longer match the library", m, r, w, a)
 	}
-	if ts.w.pointCount("srv.accept.beforeAdd") < 1 || ts.w.pointCount("srv.read.beforeRx") < 1 ||
+	if ts.w.pointCount("srv.accept.beforeAdd") < 1 || ts.w.pointCount("srv.handleConn.start") < 1 || ts.w.pointCount("srv.read.beforeRx") < 1 ||
 		ts.w.pointCount("srv.beforeSend") < 1 || ts.w.pointCount("srv.send.loaded") < 1 {
-		return fmt.Errorf("yield points seen while serving one request: %v (expected accept.beforeAdd, read.beforeRx, beforeSend, send.loaded at least once each)", ts.w.points())
+		return fmt.Errorf("yield points seen while serving one request: %v (expected accept.beforeAdd, handleConn.start, read.beforeRx, beforeSend, send.loaded at least once each)", ts.w.points())
 	}
 	if u := ts.w.unresolved.Load(); u != 0 {
 		return fmt.Errorf("%d yield points passed an object that could not be mapped to the harness connection (fields stream/inner of kmipserver.conn changed?)", u)
@@ -1561,7 +1562,7 @@ func genConnScenarios(ctx *Ctx) [][]*connScen {
 		}
 	}
 	// 2. the client closes / half-closes at every director point and at the other triggers
-	points := []string{"p:beforeSend", "p:sendLoaded", "p:writeBeforeErr", "p:readBeforeRx", "p:afterCancel", "sent", "w1", "w2", "any", "q"}
+	points := []string{"p:connStart", "p:beforeSend", "p:sendLoaded", "p:writeBeforeErr", "p:readBeforeRx", "p:afterCancel", "sent", "w1", "w2", "any", "q"}
 	for _, m := range []string{"g", "gg", "gb", "b", "ggg", "bg"} {
 		for _, cl := range points {
 			for _, half := range []bool{false, true} {
@@ -1582,7 +1583,7 @@ func genConnScenarios(ctx *Ctx) [][]*connScen {
 	// 2b. the same director points with the held goroutine released only a while after the close
 	//     (the other goroutines finish their reaction to the close first), and unconditional stalls
 	//     of whoever arrives at a yield point
-	pts := []string{"beforeSend", "sendLoaded", "writeBeforeErr", "readBeforeRx", "afterCancel"}
+	pts := []string{"connStart", "beforeSend", "sendLoaded", "writeBeforeErr", "readBeforeRx", "afterCancel"}
 	for rep := 0; rep < ctx.N(2, 10); rep++ {
 		for _, m := range []string{"g", "gg", "gb"} {
 			for _, pt := range pts {
@@ -1844,13 +1845,13 @@ func runLtsSrv(ctx *Ctx) {
 	// positive controls on the schedule director: every yield point must have been seen, every directed
 	// point must have held a goroutine at least once, and every object passed must have been ours
 	if len(ctx.Replay) == 0 {
-		for _, pt := range []string{"srv.accept.beforeAdd", "srv.read.beforeRx", "srv.beforeSend", "srv.send.loaded", "srv.write.beforeErr", "srv.terminate.afterCancel"} {
+		for _, pt := range []string{"srv.accept.beforeAdd", "srv.handleConn.start", "srv.read.beforeRx", "srv.beforeSend", "srv.send.loaded", "srv.write.beforeErr", "srv.terminate.afterCancel"} {
 			ctx.Res.Distribution["srv.yield:"+pt] += points[pt]
 			if points[pt] == 0 {
 				ctx.Res.Fail("yield point " + pt + " was never reached in the whole run: the schedules that depend on it were not explored (hook removed or renamed in kmipserver?)")
 			}
 		}
-		for _, pt := range []string{"beforeSend", "sendLoaded", "writeBeforeErr", "readBeforeRx", "afterCancel"} {
+		for _, pt := range []string{"connStart", "beforeSend", "sendLoaded", "writeBeforeErr", "readBeforeRx", "afterCancel"} {
 			ctx.Res.Distribution["srv.held:"+pt] += points["held:"+pt]
 			if points["held:"+pt] == 0 {
 				ctx.Res.Fail("the director never held a goroutine at " + pt + ": the directed schedules were not explored")
@@ -2334,7 +2335,7 @@ func runSrvJob(job *ltsJob) *ltsRes {
 }
 
 // the yield points of a connection at which Shutdown is injected (the accept loop's point is sd=accept<j>)
-var srvPoints = []string{"beforeSend", "sendLoaded", "readBeforeRx", "afterCancel", "writeBeforeErr"}
+var srvPoints = []string{"connStart", "beforeSend", "sendLoaded", "readBeforeRx", "afterCancel", "writeBeforeErr"}
 
 func genSrvScenarios(ctx *Ctx) []*srvScen {
 	var out []*srvScen
@@ -2353,7 +2354,13 @@ func genSrvScenarios(ctx *Ctx) []*srvScen {
 	}
 	// Shutdown while a goroutine of a connection is held at each of the connection yield points
 	for _, pt := range srvPoints {
-		for _, k := range []string{"r", "p", "d"} {
+		kinds := []string{"r", "p", "d"}
+		if pt == "connStart" {
+			// the connection is registered (accepted, wg.Add done, goroutine started) but has not executed
+			// anything yet: Shutdown has to wait for it whatever the client does
+			kinds = []string{"i", "r", "f", "p", "d"}
+		}
+		for _, k := range kinds {
 			for _, n := range []int{1, 2} {
 				for rep := 0; rep < ctx.N(2, 8); rep++ {
 					out = append(out, &srvScen{N: n, Kind: k, Sd: "p:" + pt, Seed: uint64(rep)})
@@ -2375,7 +2382,7 @@ func genSrvScenarios(ctx *Ctx) []*srvScen {
 	}
 	out = append(out, ws...)
 	r := ctx.R
-	allSds := append(append([]string{}, sds...), "p:beforeSend", "p:sendLoaded", "p:readBeforeRx", "p:afterCancel")
+	allSds := append(append([]string{}, sds...), "p:connStart", "p:beforeSend", "p:sendLoaded", "p:readBeforeRx", "p:afterCancel")
 	for i := ctx.N(60, 600); i > 0; i-- {
 		out = append(out, &srvScen{N: 1 + r.Intn(2), Kind: rng.Pick(r, []string{"i", "r", "f", "d", "r", "d", "p", "p"}), Sd: rng.Pick(r, allSds), Seed: r.U64()%100000 + 2})
 	}
@@ -2475,7 +2482,7 @@ func runLtsServer(ctx *Ctx) {
 	}
 	// positive controls on the schedule director
 	if len(ctx.Replay) == 0 {
-		for _, pt := range []string{"srv.accept.beforeAdd", "srv.read.beforeRx", "srv.beforeSend", "srv.send.loaded", "srv.terminate.afterCancel"} {
+		for _, pt := range []string{"srv.accept.beforeAdd", "srv.handleConn.start", "srv.read.beforeRx", "srv.beforeSend", "srv.send.loaded", "srv.terminate.afterCancel"} {
 			ctx.Res.Distribution["server.yield:"+pt] += points[pt]
 			if points[pt] == 0 {
 				ctx.Res.Fail("yield point " + pt + " was never reached in the whole run (hook removed or renamed in kmipserver?)")
